@@ -1,4 +1,4 @@
-import Comdex.Lemmas.AmmMatchAccount
+import Comdex.Lemmas.AmmMatchExact
 import Comdex.Lemmas.AmmFindPriceBook
 import Comdex.Lemmas.AmmPool
 /-!
@@ -603,5 +603,36 @@ example : (poolBuyOrders ⟨1000000, 1000000⟩ 900000000000000000 1100000000000
     monPoolSells ⟨1000000, 1000000⟩ (poolSellOrders ⟨1000000, 1000000⟩ 900000000000000000 1100000000000000000 2) = true := by
   set_option maxRecDepth 100000 in
   refine ⟨by decide, by decide, by decide⟩
+
+
+/-! ## the exact characterisation of defect D2 -/
+
+/-- **Base coin over a whole `Match`, exactly**: the sellers never pay more base coin than the buyers receive, and they pay
+exactly as much **if and only if** `matchLossless` holds — i.e. no sell-side pro-rata distribution (in the single-price step at
+the last price or in an iteration of the two-sided loop) re-ran on orders that cannot absorb the amount it was given.  The
+ghost is computed from the INPUT alone, so it predicts on which books D2 strikes (the driver uses it: a non-conserving real
+result is reported as the known `base_conserved` only where the ghost predicts it, as `base_conserved_unexplained` otherwise). -/
+theorem base_conserved_iff_lossless (os : List Order) (hw : ∀ o ∈ os, Wf o) (hids : (os.map (·.id)).Nodup)
+    (lp : Int) (hlp : 0 < lp) (b' : Book) (mp q : Int) (h : matchBook (newBook os) lp = .ok b' mp q) :
+    ticksFilled (newBook os).sells b'.sells ≤ ticksFilled (newBook os).buys b'.buys ∧
+    (ticksFilled (newBook os).buys b'.buys = ticksFilled (newBook os).sells b'.sells ↔
+      matchLossless (newBook os) lp = true) :=
+  matchBook_exact (newBook os) lp hlp (newBook_ok os hw) (newBook_ids os hids) b' mp q h
+
+/-- the same for `MatchAtSinglePrice` (first batch): with `x` the matchable amount, buyers receive `x`, sellers pay `≤ x`, and
+`= x` iff `ticksLossless` -/
+theorem base_conserved_iff_lossless_single (os : List Order) (hw : ∀ o ∈ os, Wf o) (hnd : os.Nodup) (p : Int) (hp : 0 < p)
+    (b' : Book) (q : Int) (h : matchAtSinglePrice (newBook os) p = .ok b' q) :
+    ∃ x, findMatchableAmount (newBook os) p = some x ∧ ticksFilled (newBook os).buys b'.buys = x ∧
+      ticksFilled (newBook os).sells b'.sells ≤ x ∧
+      (ticksFilled (newBook os).sells b'.sells = x ↔ ticksLossless (newBook os).sells x p = true) :=
+  matchAtSinglePrice_exact (newBook os) p hp (newBook_ok os hw) (newBook_nodup os hnd) b' q h
+
+/-- and at its root: `DistributeOrderAmountToOrders` hands out at most `amt`, and exactly `amt` iff the orders that are finally
+filled after its re-runs can absorb `amt` (`lossless`) -/
+theorem distribution_exact_iff_lossless (os : List Order) (amt p : Int) (hp : 0 < p) (hamt : 0 ≤ amt) (hw : ∀ o ∈ os, Wf o)
+    (plan : List (Order × Int)) (h : planOrders (os.length + 1) os amt p = some plan) :
+    planSum plan ≤ amt ∧ (planSum plan = amt ↔ lossless (os.length + 1) os amt p = true) :=
+  planOrders_sum_iff _ os amt p hp hamt hw plan h
 
 end Comdex.C05
